@@ -1,8 +1,9 @@
 From Coq Require Import Extraction ExtrOcamlBasic ExtrOcamlString.
 From Oras Require Import Base.Prelude Generated.GC04 Model.CopySpec Model.CopyTop Model.CopyOpt Model.CopyHold.
 Extraction Language OCaml.
-(* effective concurrency with the default re-read from copy.go *)
-Definition eff_K_gen : Z -> nat := eff_K defaultConcurrency.
+(* effective concurrency: the limiter size translated from copyGraph's source (guard, default,
+   argument of semaphore.NewWeighted); equal to eff_K defaultConcurrency by C04_limiter_size *)
+Definition eff_K_gen : Z -> nat := fun opt => Z.to_nat (copyGraph_limiter_size opt).
 (* C04's runner replays every recorded trace on the permit-holding overlay (Model/CopyHold.v): the
    driver ml/c01_main.ml calls [step_opt], which here is the overlay's step (a waiting leaf holds its
    permit; holders < K at every acquisition) -- accepted by it implies accepted by CopySpec *)
